@@ -571,7 +571,7 @@ func init() {
 					})
 					return found
 				}
-				core.AnyComparison{Fn: cl, Name: "count > latest-cursor clamps the count", L: core.Not(diff), R: diff, Rel: token.GTR}.Check(r)
+				core.AnyComparison{Fn: cl, Name: "count > latest-cursor clamps the count", L: core.Not(core.Resolved(diff)), R: core.Resolved(diff), Rel: token.GTR}.Check(r)
 				_ = c
 			}),
 			rule("R32c", "deactivation after three consecutive failures", 3, func(r *Run) {
